@@ -123,11 +123,16 @@ func checkC16(r *harness.Run) harness.Coverage {
 	}
 	// strings assembled by the library (raw strings with an escaped quote, joins, reversals, hash keys, to_string)
 	// from non-ASCII parts: every string in a result must be valid UTF-8 and survive a JSON round trip
-	strDocs := univ.Js(`{"a":"é😀","b":["x","日","z"],"c":"–","d":{"é":"日本","😀":["–"]}}`, `{"a":"–","b":["é","–"],"c":"é","d":{}}`)
+	strDocs := univ.Js(`{"a":"é😀","b":["x","日","z"],"c":"–","d":{"é":"日本","😀":["–"]}}`, `{"a":"–","b":["é","–"],"c":"é","d":{},"e":["1e999","-1e999","1E400","17e308","0.1e-400","1"]}`)
 	for _, text := range []string{"'l\\'été'", "'\\'é'", "'é\\''", "'日\\'😀\\'–'", "['é\\'', a]", "{\"é\\\"\": 'é\\''}", "`\"é\\n😀\"`", "join('–', b)", "join('é', b)", "join('😀', b)", "join(c, b)", "join(a, b)", "join('', b)",
 		"reverse(a)", "reverse(c)", "reverse('é\\'–')", "to_string(a)", "to_string(b)", "to_string(@)", "to_string(d)", "keys(d)", "values(d)", "sort(b)", "max(b)", "min(b)", "sort(keys(d))", "join('–', keys(d))", "join(c, sort(keys(d)))",
 		"{\"é\": a, \"–\": c}", "d.\"é\"", "d.\"😀\"[0]", "b[*].join('–', [@, @])", "map(&join('é', [@, 'é\\'']), b)", "[a, c] | join('–', @)", "not_null(c, a)", "to_array(c)", "merge(d, {\"–\": c})", "b[?@ == '日']", "b[?@ != 'é\\'']",
-		"sort_by(b, &@)", "max_by(b, &@)", "starts_with(a, 'é') && a", "contains(a, '😀') && reverse(a)", "type(c) == 'string' && c"} {
+		"sort_by(b, &@)", "max_by(b, &@)", "starts_with(a, 'é') && a", "contains(a, '😀') && reverse(a)", "type(c) == 'string' && c",
+		// escapes U+0080..U+00FF in quoted identifiers used as hash keys / field names
+		"{\"caf\\u00e9\": a}", "{\"\\u00ff\\u0080\": c, \"\\u007f\": a}", "d.\"\\u00e9\"", "{\"\\u00e9\": d.\"\\u00e9\"}", "keys({\"\\u00e9\\u00e8\": a})", "{\"\\ud83d\\ude00\": a, \"\\u0100\": c}",
+		// numbers made from strings whose exponent overflows or underflows
+		"to_number('1e999')", "to_number('-2.5E+999')", "[to_number('1e400'), to_number('1')]", "e[*].to_number(@)", "map(&to_number(@), e)", "sum(e[*].to_number(@))", "abs(to_number('-1e999'))", "to_number(e[0])", "{n: to_number(e[1])}",
+		"to_number('17e308')", "to_number('0.1e-400')", "max(e[*].to_number(@))", "e[?to_number(@) > `1`]", "avg(e[*].to_number(@))", "to_number('1e999') || 'x'", "not_null(to_number('1e999'), 'x')"} {
 		jp, cerr, pn := impl.Compile(text)
 		if pn != nil || cerr != nil {
 			continue // acceptance is C04's and C14's business
@@ -146,12 +151,13 @@ func checkC16(r *harness.Run) harness.Coverage {
 		f    *univ.Fragment
 		maxW int
 	}{{univ.CoreFragment(), 5 + w}, {univ.ProjFragment(), 4 + w}, {univ.LogicFragment(), 5}, {univ.FuncFragment(model.FunctionNames()), 5 + w}} {
-		exprs := buildExprs(univ.NewGen(part.f), part.maxW, nil)
-		st := conform(r, exprs, docs, opts)
+		st, n, samp := conformGen(r, univ.NewGen(part.f), part.maxW, nil, docs, opts)
 		total.add(st)
-		nexpr += len(exprs)
+		nexpr += n
 		ndocs = len(docs)
-		sampleExprs(r, exprs[len(exprs)/2:len(exprs)/2+1], docs)
+		if len(samp) > 1 {
+			sampleExprs(r, samp[1:2], docs)
+		}
 	}
 	finishConform(r, total, nexpr, ndocs)
 	r.Note("results_walked", checked)
